@@ -35,21 +35,15 @@ mut("C11", "budget-skipped-in-error-handler", ("interpreter.go", "\tif intp.MaxO
 
 # ---- C12
 mut("C12", "refill-drops-data-with-error", ("scanner.go", "\tif n > 0 {\n\t\terr = nil\n\t}\n\treturn err\n", "\treturn err\n"))
-mut("C12", "peekreader-short-copy", ("type1/peekreader.go", "\tk := len(b)\n\tif k > len(r.buf) {\n\t\tk = len(r.buf)\n\t}\n\tcopy(b, r.buf[:k])\n\tr.buf = r.buf[k:]\n\treturn k, nil\n",
-     "\tk := len(b)\n\tif k > len(r.buf) {\n\t\tk = len(r.buf)\n\t}\n\tcopy(b, r.buf[:k])\n\tr.buf = nil\n\treturn k, nil\n"))
-mut("C12", "pfb-text-short-read-ends-segment", ("pfb/reader.go", "\t\t\tb = b[k:]\n\t\t\tif r.len == 0 {\n\t\t\t\tr.state = 0\n\t\t\t}\n\t\tcase 2:", "\t\t\tb = b[k:]\n\t\t\tif r.len == 0 || k == 0 {\n\t\t\t\tr.state = 0\n\t\t\t}\n\t\tcase 2:"))
 mut("C12", "peekn-stops-at-buffer-end", ("scanner.go", "func (s *scanner) PeekN(n int) []byte {\n\tfor len(s.peek) < n {\n", "func (s *scanner) PeekN(n int) []byte {\n\tfor len(s.peek) < n {\n\t\tif s.eexec == 0 && s.used > 0 && s.pos >= s.used && len(s.peek) > 0 {\n\t\t\treturn s.peek\n\t\t}\n"))
 mut("C12", "execute-clears-open-procs", ("interpreter.go", "\ts := newScanner(r)\n\terr := intp.executeScanner(s)", "\ts := newScanner(r)\n\tintp.procStart = intp.procStart[:0]\n\terr := intp.executeScanner(s)"))
 mut("C12", "revert-gt-fix", ("scanner.go", "\t\t\tif len(bb) < 2 {\n\t\t\t\t// no second byte could be read: report why\n\t\t\t\treturn nil, s.err\n\t\t\t}\n\t\t\treturn nil, &postScriptError{eSyntaxerror, \"unexpected '>'\"}\n",
      "\t\t\terr := s.err\n\t\t\tif err == nil {\n\t\t\t\terr = &postScriptError{eSyntaxerror, \"unexpected '>'\"}\n\t\t\t}\n\t\t\treturn nil, err\n"))
 mut("C12", "seekable-peek-rewinds-to-zero", ("type1/peekreader.go", "\t\t_, err = r.Seek(pos, io.SeekStart)", "\t\t_, err = r.Seek(0, io.SeekStart)"))
-mut("C12", "refill-moves-then-forgets-on-full-buffer", ("scanner.go", "\ts.used = copy(s.buf, s.buf[s.pos:s.used])\n\ts.pos = 0\n", "\tif s.pos < s.used {\n\t\ts.used = copy(s.buf, s.buf[s.pos+0:s.used])\n\t} else {\n\t\ts.used = 0\n\t}\n\ts.pos = 0\n\tif s.used == len(s.buf) {\n\t\ts.used = 0\n\t}\n"))
-mut("C12", "crlf-across-refill", ("scanner.go", "\ts.crSeen = (b == 13)\n", "\ts.crSeen = (b == 13) && s.pos < s.used\n"))
 
 # ---- C13
 mut("C13", "no-sticky-error", ("scanner.go", "\tif err != nil {\n\t\ts.err = err\n\t}\n\tif n > 0 {", "\tif err == io.EOF {\n\t\ts.err = err\n\t}\n\tif n > 0 {"))
 mut("C13", "any-error-ends-run", ("interpreter.go", "\t\tif err == io.EOF {\n\t\t\tbreak\n\t\t} else if err != nil {\n\t\t\treturn err\n\t\t}\n\t\terr = intp.executeOne(o, false)", "\t\tif err != nil {\n\t\t\tif _, ok := err.(*postScriptError); ok {\n\t\t\t\treturn err\n\t\t\t}\n\t\t\tbreak\n\t\t}\n\t\terr = intp.executeOne(o, false)"))
-mut("C13", "eexec-swallows-errors", ("eexec.go", "\tif err != nil && err != io.EOF {\n\t\treturn err\n\t}\n\ts.EndEexec()", "\tif err != nil && err != io.EOF {\n\t\tif _, ok := err.(*postScriptError); ok {\n\t\t\treturn err\n\t\t}\n\t}\n\ts.EndEexec()"))
 mut("C13", "type1-write-drops-close-error", ("type1/write.go", "\t\terr = we.Close()\n\t\tif err != nil {\n\t\t\treturn err\n\t\t}\n\t\terr = wh.Close()\n\t\tif err != nil {\n\t\t\treturn err\n\t\t}\n", "\t\twe.Close()\n\t\terr = wh.Close()\n\t\tif err != nil {\n\t\t\treturn err\n\t\t}\n"))
 mut("C13", "type1-pfb-header-error-dropped", ("type1/write.go", "\t\t_, err = w.Write([]byte{128, 2, byte(n), byte(n >> 8), byte(n >> 16), byte(n >> 24)})\n\t\tif err != nil {\n\t\t\treturn err\n\t\t}\n", "\t\tw.Write([]byte{128, 2, byte(n), byte(n >> 8), byte(n >> 16), byte(n >> 24)})\n"))
 mut("C13", "hexwriter-flush-error-dropped", ("type1/hex.go", "\t\t\tif err = w.flush(); err != nil {\n\t\t\t\treturn n, err\n\t\t\t}\n", "\t\t\tw.flush()\n"))
@@ -57,7 +51,6 @@ mut("C13", "afm-write-kern-error-dropped", ("afm/write.go", "\t\t\tif err := wri
 mut("C13", "afm-read-ignores-scanner-err", ("afm/read.go", "\tif err := scanner.Err(); err != nil {\n\t\treturn nil, err\n\t}\n", ""))
 mut("C13", "cmap-registered-at-begincmap", ("cmap.go", "\t\tintp.cmapMappings = &CMapInfo{}\n\t\treturn nil\n", "\t\tintp.cmapMappings = &CMapInfo{}\n\t\tif d := intp.DictStack[len(intp.DictStack)-1]; len(intp.DictStack) > 2 {\n\t\t\td[\"CodeMap\"] = intp.cmapMappings\n\t\t\tintp.CMapDirectory[\"(current)\"] = d\n\t\t}\n\t\treturn nil\n"),
     ("cmap.go", "\t\tdict[\"CodeMap\"] = intp.cmapMappings\n\t\tintp.cmapMappings = nil\n", "\t\tdict[\"CodeMap\"] = intp.cmapMappings\n\t\tdelete(intp.CMapDirectory, \"(current)\")\n\t\tintp.cmapMappings = nil\n"))
-mut("C13", "readstring-swallows-error", ("builtin.go", "\tn, err := s.Read(buf)\n\tif err != nil && err != io.EOF {\n\t\treturn err\n\t}\n", "\tn, _ := s.Read(buf)\n"))
 mut("C13", "pfb-binary-error-swallowed-when-data", ("pfb/reader.go", "\t\t\tif err == io.EOF {\n\t\t\t\t// the segment is shorter than its declared length\n\t\t\t\terr = io.ErrUnexpectedEOF\n\t\t\t}\n\t\t\tif err != nil {\n\t\t\t\treturn n, err\n\t\t\t}\n",
      "\t\t\tif err == io.EOF {\n\t\t\t\t// the segment is shorter than its declared length\n\t\t\t\terr = io.ErrUnexpectedEOF\n\t\t\t}\n\t\t\tif err != nil && (k == 0 || err == io.ErrUnexpectedEOF) {\n\t\t\t\treturn n, err\n\t\t\t}\n"))
 mut("C13", "countingwriter-hides-error", ("type1/write.go", "\tn, err = w.w.Write(p)\n\tw.n += n\n\treturn n, err\n", "\tn, err = w.w.Write(p)\n\tw.n += n\n\tif n == len(p) {\n\t\terr = nil\n\t}\n\tif n > 0 && n < len(p) {\n\t\treturn len(p), nil\n\t}\n\treturn n, err\n"))
@@ -97,8 +90,17 @@ mut("C18", "scanner-buffer-reuse", ("scanner.go", "\treturn &scanner{\n\t\tsrc: 
 mut("C18", "font-directory-shared-template", ("builtin.go", "\tFontDirectory := Dict{}\n", "\tFontDirectory := sharedFontDirectory\n\tclear(FontDirectory)\n"), ("builtin.go", "func makeSystemDict() Dict {\n", "var sharedFontDirectory = Dict{}\n\nfunc makeSystemDict() Dict {\n"))
 
 
+# replacements for mutants that turned out to be equivalent (see DESIGN.md 11)
+mut("C12", "pfb-text-counts-requested-bytes", ("pfb/reader.go", "\t\t\tk, err = r.r.Read(b[:k])\n\t\t\tr.len -= int64(k)\n\t\t\tn += k\n", "\t\t\twant := k\n\t\t\tk, err = r.r.Read(b[:k])\n\t\t\tr.len -= int64(want)\n\t\t\tn += k\n"))
+mut("C12", "eexec-iv-peek-not-replayed", ("eexec.go", "\ts.regurgitate = true\n", "\ts.regurgitate = len(s.peek) >= eexecN\n"))
+mut("C12", "skipoptional-only-buffered", ("scanner.go", "func (s *scanner) SkipOptionalByte(b byte) {\n\tnext, err := s.Peek()", "func (s *scanner) SkipOptionalByte(b byte) {\n\tif len(s.peek) == 0 && s.pos >= s.used && s.eexec == 0 {\n\t\treturn\n\t}\n\tnext, err := s.Peek()"))
+mut("C13", "eexec-begin-swallows-read-error", ("eexec.go", "\tbb := s.PeekN(ivLen)\n\tif len(bb) < ivLen {\n\t\treturn s.err\n\t}\n", "\tbb := s.PeekN(ivLen)\n\tif len(bb) < ivLen {\n\t\ts.err = io.EOF\n\t\treturn io.EOF\n\t}\n"))
+mut("C13", "refill-error-cleared-by-later-success", ("scanner.go", "\tif s.err != nil {\n\t\treturn s.err\n\t}\n\ts.used = copy", "\tif s.err == io.EOF {\n\t\treturn s.err\n\t}\n\ts.err = nil\n\ts.used = copy"))
+mut("C13", "peek-seek-error-ignored", ("type1/peekreader.go", "\t\t_, err = r.Seek(pos, io.SeekStart)\n\t\tif err != nil {\n\t\t\treturn nil, nil, err\n\t\t}\n", "\t\tr.Seek(pos, io.SeekStart)\n"))
+mut("C13", "template-write-error-masked", ("type1/write.go", "\t\treturn tmpl.ExecuteTemplate(w, \"SectionC\", info)\n\n\tcase FormatPFB:", "\t\ttmpl.ExecuteTemplate(w, \"SectionC\", info)\n\t\treturn nil\n\n\tcase FormatPFB:"))
+
 def sh(cmd, cwd, check=True):
-    r = subprocess.run(cmd, cwd=cwd, env=ENV, shell=True, capture_output=True, text=True)
+    r = subprocess.run(cmd, cwd=cwd, env=ENV, shell=True, capture_output=True, text=True, errors="replace")
     if check and r.returncode != 0:
         raise RuntimeError(f"{cmd} failed in {cwd}:\n{r.stdout}\n{r.stderr}")
     return r
